@@ -10,6 +10,6 @@ Extraction "c04_model.ml" ew_act id_act normalizer_act softmax_act
   pool_nout pool_eval pool_eval_batch pool_wid pool_amax resize_nout resize_eval resize_eval_batch resize_wid
   conv_pre_batch lin_pre_batch
   hnet_np hnet_params hnet_set hnet_features hnet_eval hnet_eval1 hnet_wid hnet_wd hnet_wpd
-  neu_eval neu_eval1 neu_wid lin_kind neu_kind conv_kind pool_kind resize_kind norm_kind
+  neu_eval neu_eval1 neu_wid lin_kind neu_kind conv_kind pool_kind resize_kind norm_kind rbf_kind
   rbf_set_gamma rbf_nparams rbf_params rbf_set rbf_eval rbf_eval_batch rbf_wpd
   cmac_nparams cmac_eval cmac_eval_batch cmac_wpd ens_eval_batch ens_eval.
